@@ -41,6 +41,15 @@ CHECKS = {
         note='Trusts the reference interpreter for non-limit failures; a >520-byte push inside the script text may be refused at load time (C01 allows that). '
              'Two genuine defects found here were repaired by fix: commits (see known_findings.json).',
         design='5/C10'),
+    'C16': dict(
+        technique='differential property-based testing (Hypothesis) of exec against the reference interpreter started from the observed pre-state',
+        text='Generated (session, k steps, token list) cases: the harness performs the k steps, then Instance::eval on the tokens, then continues to the end. The reference interpreter '
+             'executes the compiled tokens on the pre-state read from the harness (stack, alt stack, condition stack, op count, flags, version) and must reach the same post-state or the same '
+             'error; position / remaining script / curr_op_seq must be unchanged; for plain sessions the continuation must equal the reference continuing from the post-state.',
+        note='Token grammar as documented by Instance::eval (opcode names, non-zero canonical decimals, bare even-length hex = minimal-form push of those bytes); signature opcodes are not '
+             'generated in exec lists. On a failing exec only the error identity and the untouched position are compared (partial effects of a failing operation are unspecified). '
+             'Two genuine defects were repaired by fix: commits.',
+        design='5/C16'),
     'C17': dict(
         technique='bounded-exhaustive table-driven testing (all operand tuples over a boundary-rich value set) against executable definitions of the 15 functions',
         text='Every one of the 15 re-enabled opcodes is run on every operand tuple of a boundary-rich value set (V^2, V x offsets^2 for SUBSTR), with and without -z, executed and '
